@@ -11,9 +11,10 @@ PROP = 'C09'
 CHECK_MODS = ['Model.Core', 'Model.Manager', 'Checks.Corechk', 'Checks.CoreProps', 'Checks.C06chk', 'Checks.C09chk']
 CASE_TYPE = 'C09_case'
 CORR, PROPCHK = 'C09_corr', 'C09_prop'
-THEOREMS = ['C09_locality', 'C09_interleaving_equals_solo_run', 'C09_quiescent_after_rollback',
+THEOREMS = ['C09_locality', 'C09_interleaving_equals_solo_run', 'C09_interleaving_with_execution_options',
+            'C09_execution_options_adopt_nothing', 'C09_quiescent_after_rollback',
             'C09_quiescent_after_commit', 'C09_example']
-RULE = ('k = 2 or 3 session programs (add / set / delete / flush / commit / rollback / close steps over the blog shape) are '
+RULE = ('k = 2 or 3 session programs (add / set / delete / flush / commit / rollback / close / set-execution-options-on-the-connection steps over the blog shape) are '
         'interleaved step by step; each session has its own SQLite database, engine and connection but all share the one '
         'VersioningManager, the mappers and the version classes, so every interleaving is executable and "same as the solo '
         'run" is an exact equality. After every recorded event the manager\'s two maps are read; at the end each session\'s '
@@ -41,8 +42,10 @@ def gen_session_prog(rng, sid):
             prog.append(['set', rng.choice([0, 1]), rng.choice(keys), {'a': rng.choice([0, 1, 2, None])}])
         elif r < 0.62:
             prog.append(['del', rng.choice([0, 1]), rng.choice(keys)])
-        elif r < 0.84:
+        elif r < 0.80:
             prog.append(['flush'])
+        elif r < 0.84:
+            prog.append(['execopt'])
         elif r < 0.92:
             prog.append(['commit'])
         elif r < 0.97:
@@ -74,7 +77,9 @@ def gen_cases(rng, n, tier):
 
 def corpus():
     cfg = dict(shape='blog', strategy='validity', twin=False)
-    return [dict(cfg=cfg, progs=[[['add', 0, 1, {'a': 1}], ['flush'], ['add', 0, 2, {'a': 1}], ['commit']],
+    return [dict(cfg=cfg, progs=[[['add', 0, 1, {'a': 1}], ['flush'], ['set', 0, 1, {'a': 2}], ['flush'], ['commit']],
+                                 [['execopt'], ['add', 0, 1, {'a': 7}], ['flush'], ['commit']]], order=[0, 0, 1, 1, 1, 1, 0, 0, 0]),
+            dict(cfg=cfg, progs=[[['add', 0, 1, {'a': 1}], ['flush'], ['add', 0, 2, {'a': 1}], ['commit']],
                                  [['add', 0, 1, {'a': 7}], ['flush'], ['commit']]], order=[0, 1, 0, 1, 0, 1, 0])]
 
 
@@ -125,6 +130,10 @@ class MultiRun(object):
         rec.trace.append(dict(ev=name))
         rec.snaps.append(rec.snapshot())
         self._on_event(rec, rec.trace[-1])
+
+    def mark_opt(self, j):
+        self.steps.append((j, dict(ev='execopt')))
+        self.maps.append(self.read_maps())
 
     def close(self):
         for rec in self.recs:
@@ -196,6 +205,10 @@ def run_schedule(env, cfg, progs, order):
                         rf.pop((op[1], op[2]), None)
                 elif kind == 'flush':
                     s.flush()
+                elif kind == 'execopt':
+                    # execution options set on the session's connection (set_connection_execution_options event)
+                    mr.conns[j].execution_options(verif_marker=len(outcomes))
+                    mr.mark_opt(j)
                 elif kind == 'commit':
                     s.commit()
                     mr.mark(j, 'commit')
@@ -276,7 +289,8 @@ def encode(case, obs):
                 'c9_solo := []; c9_quiescent := false; c9_exc := true |}')
     full = obs['full']
     ccfg = obs['ccfg']
-    steps = glist(full['steps'], lambda se: '(%s, %s, %s)' % (gnat(se[0]), gnat(se[0]), hist.g_event(se[1])))
+    steps = glist(full['steps'], lambda se: '(%s, %s, %s)' % (
+        gnat(se[0]), gnat(se[0]), 'GOpt' if se[1]['ev'] == 'execopt' else '(GE %s)' % hist.g_event(se[1])))
     maps = glist(full['maps'] + [full['maps_end']],
                  lambda m: gpair(glist(m[0], gnat), glist(m[1], lambda p: gpair(gnat(p[0]), gnat(p[1])))))
     # one extra map observation (after the final clean-up) has no step: drop it from the per-step list, keep it for quiescence
